@@ -12,6 +12,8 @@ elif [ "${ROUND:-1}" = 3 ]; then
   SRC="/tmp/w3_$P/mutation/m$K"; TAG="r3m$K"
 elif [ "${ROUND:-1}" = 4 ]; then
   SRC="/tmp/w4_$P/mutation/m$K"; TAG="r4m$K"
+elif [ "${ROUND:-1}" = 5 ]; then
+  SRC="/tmp/w5_$P/mutation/m$K"; TAG="r5m$K"
 else
   SRC="/tmp/wt_$P/mutation/m$K"; TAG="m$K"
 fi
